@@ -35,12 +35,13 @@ def materialise(root, cmds):
             if os.path.lexists(p): os.unlink(p)
             os.symlink(tg if tg == "/dev/null" else root + tg, p)
 
-def run_tool(exe, root, cmd, arg, dl, cm):
+def run_tool(exe, root, cmd, arg, dl, cm, bare=False):
     env = dict(os.environ, ECONFTOOL_ROOT=root, LC_ALL="C", ASAN_OPTIONS="detect_leaks=0:exitcode=99", UBSAN_OPTIONS="exitcode=98")
     a = arg.decode("latin-1")
     if a.startswith("/"): a = root + a
     try:
-        p = subprocess.run([exe, cmd, "--delimiters=" + dl.decode("latin-1"), "--comment=" + cm.decode("latin-1"), a],
+        opts = [] if bare else ["--delimiters=" + dl.decode("latin-1"), "--comment=" + cm.decode("latin-1")]      # bare: the tool's defaults (= and #)
+        p = subprocess.run([exe, cmd] + opts + [a],
                            stdout=subprocess.PIPE, stderr=subprocess.PIPE, env=env, timeout=30)
     except subprocess.TimeoutExpired:
         return None, "timeout", b""
@@ -89,7 +90,7 @@ def check(tier, seed):
             materialise(root, cmds)
             for c, line in zip(tcmds, w[len(cmds):]):
                 m = re.match(r"exit=(\d+) stdout=(\S+) err=(\S+)", line)
-                so, rc, se = run_tool(exe, root, c, arg, dl, cm)
+                so, rc, se = run_tool(exe, root, c, arg, dl, cm, bare=(dl == b"=" and cm == b"#" and evals % 2 == 0))
                 evals += 1
                 wexit, wout, werr = int(m.group(1)), vlib.dec(m.group(2)), vlib.dec(m.group(3))
                 got_exit = rc if isinstance(rc, str) else rc % 256
